@@ -29,7 +29,21 @@ def run(R):
                     hs = gen.make_hunks(a, b, 3)
                     if any(h["os"] == 0 and h["oc"] == 0 for h in hs):
                         continue
-                k = rng.choice(["unified", "context", "git", "gnu-u", "gnu-c", "index-unified"])
+                k = rng.choice(["unified", "context", "git", "gnu-u", "gnu-c", "index-unified", "git-create", "git-delete", "delete"])
+                # created and deleted files share a small pool of directories: a directory may be made for one section's file and
+                # emptied by another section's deletion in the same run (the write of a git section is deferred to the end of the run)
+                shared = rng.choice([b"shared0", b"shared0", b"shared1/sub"])
+                if k == "git-create":
+                    name = shared + b"/file%d.txt" % i
+                    secs.append((k, emit.git_text(gen.make_hunks([], b, 3), name, name, "add", None, b"100644")))
+                    continue
+                if k in ("git-delete", "delete"):
+                    name = shared + b"/file%d.txt" % i
+                    aa = [(c, "L") for c, t in a]
+                    tree[name] = ("f", gen.render(aa, "keep"), 0o644)
+                    secs.append((k, emit.git_text(gen.make_hunks(aa, [], 3), name, name, "delete", b"100644", None) if k == "git-delete" else
+                                 emit.unified_text(gen.make_hunks(aa, [], 3), b"a/" + name, b"/dev/null", b"2020-01-01 00:00:00.000000000 +0000", b"1970-01-01 00:00:00.000000000 +0000")))
+                    continue
                 ts = b"2020-01-01 00:00:00.000000000 +0000"
                 an, bn = b"a/" + name, b"b/" + name
                 text = {"unified": lambda: emit.unified_text(hs, an, bn, ts, ts), "context": lambda: emit.context_text(hs, an, bn, ts, ts),
@@ -51,10 +65,16 @@ def run(R):
         t = box.Tree(tree); t[b"all.diff"] = ("f", combined, 0o644)
         jobs.append(dict(cut=R.cut, tree=t, argv=[b"-f", b"-p1", b"-i", b"all.diff"]))
         jobs.append(dict(cut=R.cut, tree=box.Tree(tree), argv=[b"-f", b"-p1"], stdin=combined))
-    res = drv.run_many(jobs)
+        fam = {"unified": b"-u", "gnu-u": b"-u", "index-unified": b"-u", "context": b"-c", "gnu-c": b"-c"}
+        flags = {fam.get(k) for k, _ in secs}
+        # diff-tool output of one format (filler text and all): the matching -u / -c option must change nothing
+        jobs.append(dict(cut=R.cut, tree=t, argv=[b"-f", b"-p1", flags.pop(), b"-i", b"all.diff"]) if len(flags) == 1 and None not in flags else None)
+    res_ = drv.run_many([j for j in jobs if j])
+    it = iter(res_)
+    res = [next(it) if j else None for j in jobs]
     for i, (tree, secs, combined) in enumerate(cases_):
-        rc, rs = res[2 * i], res[2 * i + 1]
-        R.evaluations += 2; R.nontrivial.add(hash(combined))
+        rc, rs, rf = res[3 * i], res[3 * i + 1], res[3 * i + 2]
+        R.evaluations += 2 + (rf is not None); R.nontrivial.add(hash(combined))
         data = {"patch_hex": combined.hex(), "kinds": [k for k, _ in secs], "tree": {p.decode(): v[1].hex() for p, v in tree.items()},
                 "combined_exit": rc.exit, "stdout": rc.stdout.decode("latin1")[-500:], "stderr": rc.stderr.decode("latin1")[-200:]}
         # sequence of separate runs
@@ -64,6 +84,7 @@ def run(R):
             r = box.run(R.cut, t, [b"-f", b"-p1", b"-i", b"one.diff"])
             exits.append(r.exit)
             cur = box.Tree({p: ("f", v[1], v[2]) for p, v in r.after.items() if v[0] == "f" and p != b"one.diff"})
+            last_dirs = {p for p, v in r.after.items() if v[0] == "d"}
         want = {p: v[1] for p, v in cur.items()}
         got = drv.contents(rc.after, drop=(b"all.diff",))
         if rc.exit != max(exits):
@@ -72,4 +93,11 @@ def run(R):
             diff = sorted(p for p in set(got) | set(want) if got.get(p) != want.get(p))
             R.oracle_fail(f"combined run leaves a different tree from the separate runs ({diff[:3]})", data); continue
         if rs.exit != rc.exit or drv.contents(rs.after) != got:
-            R.oracle_fail("reading the patch from standard input differs from reading it with -i", data)
+            R.oracle_fail("reading the patch from standard input differs from reading it with -i", data); continue
+        if rf is not None and (rf.exit != rc.exit or drv.contents(rf.after, drop=(b"all.diff",)) != got):
+            data["forced_exit"] = rf.exit; data["forced_stdout"] = rf.stdout.decode("latin1")[-300:]
+            R.oracle_fail("the -u/-c option matching the format of every section gives a different result from auto-detection", data)
+        # directories: made for created files, removed with their last file - the same in one run as in separate runs
+        dirs_c = {p for p, v in rc.after.items() if v[0] == "d"}
+        if dirs_c != last_dirs:
+            R.oracle_fail(f"combined run leaves different directories from the separate runs ({sorted(dirs_c ^ last_dirs)[:3]})", data)
